@@ -22,6 +22,12 @@ def demo_dir(text):
         raise SystemExit('demo_test.go does not say where to place it')
     return m.group(1).strip('/').rstrip('.')
 
+def needs(readme):
+    paras = [p.strip() for p in re.split(r'\n\s*\n', readme) if p.strip()]
+    title = paras[0] if paras else ''
+    trig = [p for p in paras if re.search(r'trigger|manifest|needs|need to|required to', p, re.I)]
+    return (title + '\n' + ('\n'.join(trig[:2]) if trig else '\n'.join(paras[1:3])))[:1200]
+
 def verify(src, sid, prop):
     patch = os.path.join(src, 'patch.diff')
     demo = open(os.path.join(src, 'demo_test.go')).read()
@@ -63,7 +69,7 @@ def verify(src, sid, prop):
             shutil.copy(os.path.join(src, f), out)
     readme = open(os.path.join(src, 'README.md')).read() if os.path.exists(os.path.join(src, 'README.md')) else ''
     meta = {'id': sid, 'breaks_property': prop, 'demo_package': pkg,
-            'needs_to_manifest': readme.strip().split('\n\n')[0][:600],
+            'needs_to_manifest': needs(readme),
             'verified': [{'cmd': c, 'exit': e} for c, e in ran],
             'verified_summary': 'patch applies, builds, repository suite passes with it, demo fails with it and passes without',
             'written_by': 'independent sub-agent given only the property text and a scratch worktree'}
